@@ -47,11 +47,13 @@ inductive Op where
   | setr (b : Bool) (k : Nat) (v : Option (Nat × Nat))
   | sete (b : Bool) (k : Nat) (v : Option EnS)
   | mark (b : Bool) (k : Nat)
+  | markLazy (b : Bool) (k : Nat)               -- `LazyBuilder::marked`: queued, applied inside the next `maintain`
   | delNow (b : Bool) (k : Nat)
   | delBatch (b : Bool) (ks : List Nat)
   | delAtomic (b : Bool) (k : Nat)
   | maintain (b : Bool)
   | allocMaintain (b : Bool)
+  | allocReset (b : Bool)                       -- the allocator resource is replaced by a fresh one (C20 runs only)
   | serialize (b : Bool) (recursive : Bool)
   | deserialize (b : Bool) (slot : Nat)
   | load (b : Bool) (ds : List EntityData)
@@ -180,6 +182,8 @@ def parseOp? (ts : List String) : Option Op :=
     | "uuid", "ron" => some (.cfg true true)
     | "uuidapp", "json" => some (.cfg true false)
     | "uuidapp", "ron" => some (.cfg true true)
+    | "uuidreg", "json" => some (.cfg true false)
+    | "uuidreg", "ron" => some (.cfg true true)
     | _, _ => none
   | ["create", w, "now"] => (parseWorld? w).map (.create · false)
   | ["create", w, "atomic"] => (parseWorld? w).map (.create · true)
@@ -194,11 +198,13 @@ def parseOp? (ts : List String) : Option Op :=
   | ["sete", w, k, "val", v] => do
     pure (.sete (← parseWorld? w) (← parseSlot? k) (some (.val (← parseInt? v))))
   | ["mark", w, k] => do pure (.mark (← parseWorld? w) (← parseSlot? k))
+  | ["mark_lazy", w, k] => do pure (.markLazy (← parseWorld? w) (← parseSlot? k))
   | ["del_now", w, k] => do pure (.delNow (← parseWorld? w) (← parseSlot? k))
   | "del_batch" :: w :: ks => do pure (.delBatch (← parseWorld? w) (← mapM? parseSlot? ks))
   | ["del_atomic", w, k] => do pure (.delAtomic (← parseWorld? w) (← parseSlot? k))
   | ["maintain", w] => (parseWorld? w).map .maintain
   | ["alloc_maintain", w] => (parseWorld? w).map .allocMaintain
+  | ["alloc_reset", w] => (parseWorld? w).map .allocReset
   | ["serialize", w] => (parseWorld? w).map (.serialize · false)
   | ["serialize_rec", w] => (parseWorld? w).map (.serialize · true)
   | ["deserialize", w, k] => do
@@ -326,6 +332,12 @@ structure MState where
   b : SLWorld := {}
   slots : Array (List EntityData) := #[]
   uuid : Bool := false
+  /-- entities with a queued lazy marking, per world, in queue order. The model has no lazy queue: a
+      `maintain` with queued markings is replayed as the model history `maintain; mark e₁; …; mark eₙ`
+      (that is what `World::maintain` does: entity merge and purge first, then the queued closures, each
+      of which calls `MarkerAllocator::mark`), so the theorems about all histories cover it. -/
+  lazyA : List Entity := []
+  lazyB : List Entity := []
 
 def MState.get (m : MState) (b : Bool) : SLWorld := if b then m.b else m.a
 def MState.set (m : MState) (b : Bool) (x : SLWorld) : MState :=
@@ -354,11 +366,30 @@ def modelStep (m : MState) : Op → MState × Res
   | .mark b k =>
     if m.uuid && b then (m, .skip) else
     let (x, r) := (m.get b).step (.mark k); (m.set b x, sresToRes r)
+  | .markLazy b k =>
+    if m.uuid && b then (m, .skip) else
+    match SpecsModel.resolve (m.get b).log k with
+    | none => (m, .skip)
+    | some e => (if b then { m with lazyB := m.lazyB ++ [e] } else { m with lazyA := m.lazyA ++ [e] }, .ok)
   | .delNow b k => let (x, r) := (m.get b).step (.delNow k); (m.set b x, sresToRes r)
   | .delBatch b ks => let (x, r) := (m.get b).step (.delBatch ks); (m.set b x, sresToRes r)
   | .delAtomic b k => let (x, r) := (m.get b).step (.delAtomic k); (m.set b x, sresToRes r)
-  | .maintain b => let (x, r) := (m.get b).step .maintain; (m.set b x, sresToRes r)
+  | .maintain b =>
+    let (x, r) := (m.get b).step .maintain
+    match r with
+    | .ok =>
+      let queued := if b then m.lazyB else m.lazyA
+      let x := queued.foldl (fun (x : SLWorld) e => { x with w := (x.w.mark e).1 }) x
+      let m := if b then { m with lazyB := [] } else { m with lazyA := [] }
+      (m.set b x, .ok)
+    | r => (m.set b x, sresToRes r)
   | .allocMaintain b => let (x, r) := (m.get b).step .allocMaintain; (m.set b x, sresToRes r)
+  | .allocReset b =>
+    -- not an operation of the model's histories (C14/C15 do not quantify over it): the marker allocator of
+    -- the world becomes the initial one; the model stays a function of the history, which is all C20 uses
+    if m.uuid then (m, .skip) else
+    let x := m.get b
+    (m.set b { x with w := { x.w with ma := {} } }, .ok)
   | .serialize b recursive =>
     if recursive && m.uuid && b then (m, .skip) else
     let (x, r) := (m.get b).step (if recursive then .serializeRec else .serialize)
@@ -581,6 +612,9 @@ structure WMon where
   pendingLoad : Option (Dump × List EntityData × List Entity) := none
   pendingIdx : Option Nat := none        -- counter that must be unchanged at the next dump (mark on marked)
   loads : List UInt64 := []
+  /-- every (handle, marker id) seen in a dump of this world: no operation of the protocol takes a marker
+      away from a live entity, so a live handle seen with another id has been marked a second time -/
+  carried : List (Entity × Nat) := []
 
 structure St where
   caseId : String := ""
@@ -623,8 +657,8 @@ def St.setWm (st : St) (b : Bool) (w : WMon) : St := if b then { st with mb := w
 
 def opWorld : Op → Option Bool
   | .cfg _ _ => none
-  | .create b _ | .setp b _ _ | .setr b _ _ | .sete b _ _ | .mark b _ | .delNow b _ | .delBatch b _
-  | .delAtomic b _ | .maintain b | .allocMaintain b | .serialize b _ | .deserialize b _ | .load b _
+  | .create b _ | .setp b _ _ | .setr b _ _ | .sete b _ _ | .mark b _ | .markLazy b _ | .delNow b _ | .delBatch b _
+  | .delAtomic b _ | .maintain b | .allocMaintain b | .allocReset b | .serialize b _ | .deserialize b _ | .load b _
   | .roundtrip b _ | .dump b => some b
 
 def resolveLog (log : Array Entity) (k : Nat) : Option Entity :=
@@ -665,8 +699,22 @@ def monitorLine (st : St) (op : Op) (res : Res) : St × Option (String × String
       | some i => if d.ents.any (fun x => match x.m with | some m => m ≥ i | none => false) then
           some ("C15", "a carried marker id is not below the allocator's counter") else none
       | none => none
-    let st := st.setWm b { wm with last := some d, pendingLoad := none, pendingIdx := none }
-    (st, v1 <|> v2 <|> v3 <|> v4)
+    let v5 : Option (String × String) :=
+      d.ents.findSome? (fun x =>
+        match x.m, wm.carried.find? (·.1 == x.ent) with
+        | some m, some (_, m0) =>
+          if m == m0 then none else
+            some ("C15", s!"live entity {x.ent.id}:{x.ent.gen} carried marker {m0} and now carries {m}: an already marked entity was marked again")
+        | none, some (_, m0) =>
+          some ("C15", s!"live entity {x.ent.id}:{x.ent.gen} lost its marker {m0}")
+        | _, none => none)
+    let fresh := d.ents.filterMap (fun x =>
+      match x.m with
+      | some m => if wm.carried.any (·.1 == x.ent) then none else some (x.ent, m)
+      | none => none)
+    let st := st.setWm b { wm with last := some d, pendingLoad := none, pendingIdx := none,
+                                   carried := fresh ++ wm.carried }
+    (st, v1 <|> v2 <|> v3 <|> v4 <|> v5)
   | .create b _, .ent e =>
     let wm := st.wm b
     (st.setWm b { wm with log := wm.log.push e, last := none, pendingLoad := none, pendingIdx := none }, none)
